@@ -7,6 +7,7 @@ demanding more would be a false alarm).  read()/clear_status_flags()/flush_*() m
 exactly what they document, last_tx_arc equals the retransmission count of the last packet
 in the air log, and the IRQ line follows exactly the events enabled by interrupt_config().
 The same module serves C20 with drv='lite'."""
+from vlib import boot
 from vlib.harness.runner import Result, Part, exc_signature
 from vlib.sim.core import US, MS, SimHorizon
 from vlib.sim.selftest import Raw
@@ -28,8 +29,60 @@ PADDR = [b"0pipe", b"1pipe", b"2pipe", b"3pipe", b"4pipe", b"5pipe"]
 TADDR = b"Tpeer"
 
 
+def run_wrapper(case, P):
+    """interrupt_config() of the classes that wrap or inherit RF24: every flag combination, positional and by keyword;
+    the IRQ line is read from the chip model for each single latched event"""
+    from vlib.sim.core import Sim
+    from vlib.sim.radio import Chip, Medium
+    from vlib.sim.shims import SimSpiDev, SimPin
+    L = boot.lib()
+    res = Result()
+    res.nontrivial = True
+    sim = Sim()
+    chip = Chip(sim, Medium(sim), "W")
+    spi, csn, ce = SimSpiDev(chip), SimPin(), SimPin(chip, "ce")
+    cls = case["cls"]
+    try:
+        if cls == "RF24":
+            o = L.RF24(spi, csn, ce)
+        elif cls == "FakeBLE":
+            o = L.FakeBLE(spi, csn, ce)
+        elif cls == "Network":
+            o = L.RF24Network(spi, csn, ce, 0o1)
+        elif cls == "RoutingOnly":
+            o = L.RF24NetworkRoutingOnly(spi, csn, ce, 0o1)
+        elif cls == "Mesh":
+            o = L.RF24Mesh(spi, csn, ce, 3)
+        else:
+            o = L.RF24MeshNoMaster(spi, csn, ce, 3)
+        o.__enter__()
+        a, b, c = case["flags"]
+        if case["form"] == "positional":
+            o.interrupt_config(a, b, c)
+        elif case["form"] == "keyword":
+            o.interrupt_config(data_fail=c, data_recv=a, data_sent=b)
+        else:  # only the disabled ones are named, the others keep their documented default True
+            kw = {n: False for n, v in (("data_recv", a), ("data_sent", b), ("data_fail", c)) if not v}
+            o.interrupt_config(**kw)
+        enabled = (a << 6) | (b << 5) | (c << 4)
+        for bit, name in ((0x40, "data received"), (0x20, "data sent"), (0x10, "data failed")):
+            chip.flags = bit
+            chip._irq_changed()
+            if chip.irq_active() != bool(bit & enabled):
+                res.fail(P + "/irq-line/" + cls, "%s.interrupt_config(%s) %s: IRQ pin %s for the event '%s'" % (
+                    cls, case["form"], (a, b, c), "asserted" if chip.irq_active() else "idle", name))
+            chip.flags = 0
+            chip._irq_changed()
+    except Exception as e:  # noqa: BLE001
+        res.fail(exc_signature(P + "/raises", e), "%s: %r" % (cls, e))
+    res.label("interrupt_config-" + cls)
+    return res
+
+
 def run_case(case, prefix=None):
     P = prefix or PREFIX
+    if case.get("kind") == "wrapper":
+        return run_wrapper(case, P)
     res = Result()
     drv = case.get("drv", "full")
     lite = drv == "lite"
@@ -276,6 +329,26 @@ def run_case(case, prefix=None):
                 got = r.last_tx_arc
                 if got != exp:
                     res.fail(P + "/last_tx_arc", "last_tx_arc = %r, the last packet was retransmitted %d times" % (got, exp))
+            elif k == "neutral":
+                # re-asserting a setting (or toggling nothing) through setters that share a register with the IRQ masks or
+                # the flags: neither may change
+                which = op[1] % 8
+                if which == 0 and not lite:
+                    r.crc = r.crc
+                elif which == 1:
+                    r.power = True
+                elif which == 2:
+                    r.channel = r.channel
+                elif which == 3:
+                    r.pa_level = r.pa_level
+                elif which == 4:
+                    r.data_rate = r.data_rate
+                elif which == 5:
+                    r.arc = 2
+                elif which == 6:
+                    r.ard = 500
+                elif not lite:
+                    r.allow_ask_no_ack = r.allow_ask_no_ack
             elif k == "irqcfg":
                 a, b, c = bool(op[1]), bool(op[2]), bool(op[3])
                 r.interrupt_config(a, b, c)
@@ -316,7 +389,7 @@ def strategy(drv="full"):
         st.just(("update",)), st.just(("update",)), st.just(("available",)), st.just(("any",)), st.just(("any",)),
         st.tuples(st.just("fifo"), b, st.sampled_from([None, True, False])),
         st.just(("read",)), st.just(("read",)), st.tuples(st.just("clear"), b, b, b), st.just(("flush_rx",)), st.just(("flush_tx",)),
-        st.just(("last_tx_arc",)), st.tuples(st.just("irqcfg"), b, b, b),
+        st.just(("last_tx_arc",)), st.tuples(st.just("irqcfg"), b, b, b), st.tuples(st.just("neutral"), st.integers(0, 7)),
     ]
     return st.fixed_dictionaries({
         "drv": st.just(drv),
@@ -330,7 +403,7 @@ def strategy(drv="full"):
 ENUM_ALPHA = [["peer_send", 1, 5], ["peer_send", 5, 32], ["peer_send", 0, 1], ["listen", True], ["listen", False],
               ["send", 4, "listening", False], ["send", 4, "absent", False], ["send", 3, "ackpl", False], ["fill_tx", 3, 2],
               ["load_ack", 2, 1], ["read"], ["clear", True, False, False], ["clear", False, True, True], ["flush_rx"], ["flush_tx"],
-              ["irqcfg", False, True, True]]
+              ["irqcfg", False, True, True], ["neutral", 0]]
 ENUM_TAIL = [["update"], ["available"], ["any"], ["fifo", False, None], ["fifo", True, None], ["read"], ["update"], ["last_tx_arc"]]
 
 
@@ -347,7 +420,15 @@ def _enum(depth, drv="full"):
     return gen
 
 
+def _wrapper_cases():
+    import itertools
+    for cls in ("RF24", "FakeBLE", "Network", "RoutingOnly", "Mesh", "MeshNoMaster"):
+        for form in ("positional", "keyword", "disabled-only"):
+            for fl in itertools.product((False, True), repeat=3):
+                yield {"kind": "wrapper", "cls": cls, "form": form, "flags": list(fl)}
+
+
 def parts(tier):
     if tier == "quick":
-        return [Part("enum-words-depth3", "enum", _enum(3), exhaustive=True), Part("generated", "gen", strategy, n=4000)]
-    return [Part("enum-words-depth4", "enum", _enum(4), exhaustive=True), Part("generated", "gen", strategy, n=120000)]
+        return [Part("interrupt_config-of-every-class", "enum", _wrapper_cases, exhaustive=True), Part("enum-words-depth3", "enum", _enum(3), exhaustive=True), Part("generated", "gen", strategy, n=4000)]
+    return [Part("interrupt_config-of-every-class", "enum", _wrapper_cases, exhaustive=True), Part("enum-words-depth4", "enum", _enum(4), exhaustive=True), Part("generated", "gen", strategy, n=120000)]
